@@ -796,7 +796,8 @@ def judge(db: Any, pert: Optional[Dict[str, Any]], with_behaviour_of_original: b
         if d2:
             for d in d2:
                 out.findings.append((f"C11/{diff_pair(d)}/{diff_mode(d, None)}", f"first vs second reload at {list(d.path)}: {d.a} -- {d.b}"))
-        elif not diffs:
+        elif not diffs and not (pert is not None and pert["pair"].endswith(".base_data_type")):
+            # (after a change of BASE-DATA-TYPE alone, values typed by it are re-parsed: 18 is written as "18", read as 18.0, written as "18.0")
             out.findings.append((f"C11/rewrite/{os.path.splitext(changed[0])[1].lstrip('.')}/altered",
                                  f"second write differs in {changed}: {first_difference(m[changed[0]] if changed[0] in m else b'', m2.get(changed[0], b''))}"))
         bd = behaviour_diff(behaviour(db1), behaviour(db2))
